@@ -3,6 +3,7 @@ CONSTANTS
   MaxLen = 3
   PostLen = 0
   Deep = FALSE
+  Prune = TRUE
 INIT Init
 NEXT Next
 CONSTRAINT EmitAll
